@@ -163,6 +163,9 @@ class Gen(object):
             if self.p(0.08):
                 # empty text strings are legal TTLV: the decoder accepts them whatever the constructors think
                 return {"k": "appinfo", "ns": self.ch(["ssl", ""]), "d": self.ch(["", "www", ""])}
+            if self.p(0.12):
+                v = self.ch(["ssl", "ns2", "vault"])          # data equal to the namespace
+                return {"k": "appinfo", "ns": v, "d": v}
             return {"k": "appinfo", "ns": self.ch(["ssl", "ns2"]), "d": self.ch(["www", "d2"])}
         if k == "date":
             if self.p(0.12):
